@@ -24,9 +24,13 @@ HdrBytes(hdr, L) == IF hdr = 8 THEN <<(8 + L) \div 16777216, ((8 + L) \div 65536
 \* ---- layouts: pre = bytes before the mdat box, post = bytes after it
 \* emd: an additional EMPTY mdat box (8 bytes, as left behind by some muxers) directly before or after the
 \* data mdat of a progressive file; File.Mdat must still be the data mdat in both modes
-RangeLayouts == {l \in [pre : Pres, hdr : {8, 16}, L : 1 .. MaxL, post : {0, 9}, order : {"moov-mdat", "mdat-moov", "frag"}, emd : {"none", "before", "after"}] :
+\* lead: a box with a 64-bit size header (free, size field 1, largesize 20) in front of the mdat / the fragment: an encoder
+\* writes it back with a 32-bit header, so positions derived from recalculated sizes are 8 too low
+RangeLayouts == {l \in [pre : Pres, hdr : {8, 16}, L : 1 .. MaxL, post : {0, 9}, order : {"moov-mdat", "mdat-moov", "frag"}, emd : {"none", "before", "after"},
+                        lead : {"none", "free64"}] :
                     /\ (l.order = "frag" => l.emd = "none")
-                    /\ (l.order = "moov-mdat" => l.emd # "before")}
+                    /\ (l.order = "moov-mdat" => l.emd # "before")
+                    /\ (l.lead = "free64" => l.order # "moov-mdat" /\ l.emd = "none" /\ l.post = 0 /\ \A p \in Pres : l.pre <= p)}
 HasEmd(l) == "emd" \in DOMAIN l /\ l.emd # "none"
 EmdBefore(l) == IF "emd" \in DOMAIN l /\ l.emd = "before" THEN 8 ELSE 0
 PayloadStart(l) == l.pre + EmdBefore(l) + l.hdr
